@@ -865,7 +865,7 @@ func belowUT(g *Graph, r *vc.Rand) int {
 
 // ---------------------------------------------------------------- single-difference transforms
 
-var diffClasses = []string{"prim-kind", "container-kind", "elem-type", "attr-rename", "attr-add", "attr-remove", "ut-name", "tag-change"}
+var diffClasses = []string{"prim-kind", "container-kind", "elem-type", "attr-rename", "attr-add", "attr-remove", "ut-name", "tag-change", "ref-retarget"}
 
 // diff describes one applied single difference.
 type diff struct {
@@ -965,6 +965,16 @@ func diffAt(g *Graph, c string, k int, salt int) (d diff, ok bool, total int) {
 				} else {
 					target.T = &Type{K: "prim", Prim: "string"}
 				}
+				return d, true, idx
+			}
+		case "ref-retarget":
+			// the reference now points at another user type: whether the graphs differ is
+			// decided by the reference oracle alone (the two targets may be bisimilar)
+			if t.K == "ref" && len(g.UTs) >= 2 && hit() {
+				n := len(g.UTs)
+				nt := (t.Ref + 1 + salt%(n-1)) % n
+				d.Where += fmt.Sprintf("(UT%d->UT%d)", t.Ref, nt)
+				p.a.T = &Type{K: "ref", Ref: nt}
 				return d, true, idx
 			}
 		case "attr-rename":
